@@ -513,6 +513,50 @@ def _landing_fault(c, inst, a, rhs, oracle, events, cb, t0, tf, adt, sgn, dense,
                 c.all([c.all([c.eq(e.t, s_["root"]), e.event is s_["ev"]]) for e, s_ in zip(rec, spec)]), info=dict(rec=len(rec), spec=len(spec)))
 
 
+def _e2e_level_change(c, inst, props, t0, tf, shape):
+    """two integrate(events=...) calls of one step each with the REAL detector and root finder; the event g = alpha*(t - level) reads its
+    level from the system's constants, which are replaced between the calls: the crossing at the new level, inside the first step of
+    the second call, is reported (and so was the one at the old level inside the first call)"""
+    alpha = inst["alpha"]
+    dt0 = (tf - t0) / 2
+    tm = t0 + dt0
+    lam1, lam2 = c.real("rho1"), c.real("rho2")
+    for lam in (lam1, lam2):
+        c.assume(lam > 1.0 / 64)
+        c.assume(lam < 63.0 / 64)
+    L1 = t0 + lam1 * dt0
+    L2 = tm + lam2 * dt0
+    rhs = FreshRhs(c, shape, name="f", mode="uf")
+    rhs.ignore_kw = True
+    st, built = run(spans.build_system, c, dict(inst, N=2), t0, tf, dt0, inst.get("dense", True), rhs, dict(level=L1))
+    P = min(props).lower() + ".e2e.level_change"
+    if st != "ok":
+        c.check(P + ".constructs", False, info=repr(built))
+        return
+    a, _, log = built
+
+    def ev(t, y, level=None, **kw):
+        return alpha * (t - level)
+    ev.is_terminal = False
+    ev.direction = 0
+    st, res = run(a.integrate, tm, events=[ev])
+    if st != "ok":
+        c.check(P + ".first_call_returns", False, info=repr(res) + " / " + repr(getattr(res, "__cause__", None)))
+        return
+    n1 = len(a.events)
+    a.constants = dict(level=L2)
+    st, res = run(a.integrate, events=[ev])
+    if st != "ok":
+        c.check(P + ".second_call_returns", False, info=repr(res) + " / " + repr(getattr(res, "__cause__", None)))
+        return
+    c.case()
+    rec = list(a.events)
+    tol_x = 64 * spans.EPS64 * 64
+    c.check(P + ".crossing_of_the_first_call_is_reported", n1 == 1 and c.le(absval(c, rec[0].t - L1), tol_x) if n1 >= 1 else False, info=dict(n1=n1))
+    c.check(P + ".crossing_at_the_new_level_is_reported", len(rec) == n1 + 1 and c.le(absval(c, rec[-1].t - L2), tol_x) if len(rec) > n1 else False,
+            info=dict(events=len(rec), after_first_call=n1))
+
+
 def scenario_e2e(c, inst, props):
     """End-to-end cross-check: REAL integrate + REAL handle_events + REAL brentsrootvec on a time event g = alpha*(t - r)
     (alpha concrete over several orders of magnitude, r symbolic strictly inside the single step)."""
@@ -527,6 +571,8 @@ def scenario_e2e(c, inst, props):
         c.assume(v <= 64)
         c.assume(v >= -64)
     alpha = inst["alpha"]
+    if inst.get("level_change_two_calls"):
+        return _e2e_level_change(c, inst, props, t0, tf, shape)
     near_boundary = bool(inst.get("root_near_inner_boundary"))
     if near_boundary:
         # two steps; the crossing lies within 1e-9 of the boundary between them (either side)
